@@ -251,21 +251,58 @@ func (g *streamGen) pick(t *rapid.T, cands []*simClient) *simClient {
 	return cands[rapid.IntRange(0, len(cands)-1).Draw(t, "clientIdx")]
 }
 
-// step appends exactly one entry.
+// step appends exactly one entry. Only operations that are possible in the
+// current state take part in the draw.
 func (g *streamGen) step(t *rapid.T) {
 	type op struct {
 		w int
-		f func() bool
+		f func()
 	}
 	step := len(g.ents)
 	var ops []op
+	add := func(w int, f func()) {
+		if w > 0 {
+			ops = append(ops, op{w, f})
+		}
+	}
+	moveOn := func(c *simClient) {
+		if c.cur != nil {
+			// completed or given up by the application
+			c.cs.ProposalCompleted()
+			c.old = append(c.old, c.cur)
+			c.cur = nil
+		}
+	}
+	add(g.o.wEmpty, func() {
+		if rapid.Bool().Draw(t, "newTerm") {
+			g.term += uint64(rapid.IntRange(1, 2).Draw(t, "termStep"))
+		}
+		g.push(pb.Entry{Type: pb.ApplicationEntry}, entMeta{Kind: ekEmpty})
+	})
 	if g.o.sessions {
-		ops = append(ops,
-			op{g.o.wNew, func() bool { // a new client registers
-				c := g.pick(t, g.withState(0))
-				if c == nil {
-					return false
-				}
+		fresh := g.withState(0)
+		active := g.withState(1)
+		var inflight, withOld []*simClient
+		var sessTmpls []*tmpl
+		for _, c := range active {
+			if c.cur != nil {
+				inflight = append(inflight, c)
+			}
+		}
+		for _, c := range g.withState(1, 2) {
+			if len(c.old) > 0 {
+				withOld = append(withOld, c)
+			}
+			if c.reg != nil {
+				sessTmpls = append(sessTmpls, c.reg)
+			}
+			if c.unreg != nil {
+				sessTmpls = append(sessTmpls, c.unreg)
+			}
+		}
+		if len(fresh) > 0 {
+			add(g.o.wNew, func() { // a new client registers
+				c := fresh[0]
 				c.cs.PrepareForRegister()
 				e := pb.Entry{Type: pb.ApplicationEntry, ClientID: c.cs.ClientID, SeriesID: c.cs.SeriesID, RespondedTo: c.cs.RespondedTo}
 				c.reg = g.newTmpl(e, entMeta{Kind: ekRegister, Client: c.cs.ClientID, Series: c.cs.SeriesID})
@@ -273,19 +310,12 @@ func (g *streamGen) step(t *rapid.T) {
 				c.cs.PrepareForPropose()
 				c.state = 1
 				c.lastUse = step
-				return true
-			}},
-			op{g.o.wPropose, func() bool { // next proposal of a registered client
-				c := g.pick(t, g.withState(1))
-				if c == nil {
-					return false
-				}
-				if c.cur != nil {
-					// completed or given up by the application
-					c.cs.ProposalCompleted()
-					c.old = append(c.old, c.cur)
-					c.cur = nil
-				}
+			})
+		}
+		if len(active) > 0 {
+			add(g.o.wPropose, func() { // next proposal of a registered client
+				c := g.pick(t, active)
+				moveOn(c)
 				if !c.cs.ValidForProposal(1) {
 					panic("harness: session not valid for proposal")
 				}
@@ -294,134 +324,79 @@ func (g *streamGen) step(t *rapid.T) {
 				e.ClientID, e.SeriesID, e.RespondedTo = c.cs.ClientID, c.cs.SeriesID, c.cs.RespondedTo
 				c.cur = g.newTmpl(e, entMeta{Kind: ekProposal, Client: e.ClientID, Series: e.SeriesID, Responded: e.RespondedTo, Cmd: cmd})
 				c.lastUse = step
-				if rapid.IntRange(0, 9).Draw(t, "lost") == 0 {
+				if rapid.IntRange(0, 9).Draw(t, "lost") == 9 {
 					// this attempt is still in flight; the entry lands later (or
 					// never) through a retry; something else lands now
 					g.push(pb.Entry{Type: pb.ApplicationEntry}, entMeta{Kind: ekEmpty})
-					return true
+					return
 				}
 				g.land(c.cur, false)
-				return true
-			}},
-			op{g.o.wDupCur, func() bool { // retry of the proposal in flight
-				var cands []*simClient
-				for _, c := range g.withState(1) {
-					if c.cur != nil {
-						cands = append(cands, c)
-					}
-				}
-				c := g.pick(t, cands)
-				if c == nil {
-					return false
-				}
-				c.lastUse = step
-				g.land(c.cur, false)
-				return true
-			}},
-			op{g.o.wDupStale, func() bool { // a delayed copy of an older series
-				var cands []*simClient
-				for _, c := range g.withState(1, 2) {
-					if len(c.old) > 0 {
-						cands = append(cands, c)
-					}
-				}
-				c := g.pick(t, cands)
-				if c == nil {
-					return false
-				}
-				// mostly the most recent ones
-				k := len(c.old) - 1
-				if rapid.IntRange(0, 2).Draw(t, "older") == 0 {
-					k = rapid.IntRange(0, len(c.old)-1).Draw(t, "oldIdx")
-				}
-				g.land(c.old[k], true)
-				return true
-			}},
-			op{g.o.wUnreg, func() bool { // unregister
-				c := g.pick(t, g.withState(1))
-				if c == nil {
-					return false
-				}
-				if c.cur != nil {
-					c.cs.ProposalCompleted()
-					c.old = append(c.old, c.cur)
-					c.cur = nil
-				}
+			})
+			add(g.o.wUnreg, func() { // unregister
+				c := g.pick(t, active)
+				moveOn(c)
 				c.cs.PrepareForUnregister()
 				e := pb.Entry{Type: pb.ApplicationEntry, ClientID: c.cs.ClientID, SeriesID: c.cs.SeriesID, RespondedTo: c.cs.RespondedTo}
 				c.unreg = g.newTmpl(e, entMeta{Kind: ekUnregister, Client: c.cs.ClientID, Series: c.cs.SeriesID, Responded: e.RespondedTo})
 				g.land(c.unreg, false)
 				c.state = 2
-				return true
-			}},
-			op{g.o.wDupSess, func() bool { // retried register / unregister
-				var cands []*tmpl
-				for _, c := range g.withState(1, 2) {
-					if c.reg != nil {
-						cands = append(cands, c.reg)
-					}
-					if c.unreg != nil {
-						cands = append(cands, c.unreg)
-					}
+			})
+		}
+		if len(inflight) > 0 {
+			add(g.o.wDupCur, func() { // retry of the proposal in flight
+				c := g.pick(t, inflight)
+				c.lastUse = step
+				g.land(c.cur, false)
+			})
+		}
+		if len(withOld) > 0 {
+			add(g.o.wDupStale, func() { // a delayed copy of an older series
+				c := g.pick(t, withOld)
+				k := len(c.old) - 1 // mostly the most recent one
+				if len(c.old) > 1 && rapid.IntRange(0, 2).Draw(t, "older") == 2 {
+					k = rapid.IntRange(0, len(c.old)-1).Draw(t, "oldIdx")
 				}
-				if len(cands) == 0 {
-					return false
-				}
-				g.land(cands[rapid.IntRange(0, len(cands)-1).Draw(t, "sessTmpl")], true)
-				return true
-			}},
-			op{g.o.wUnknown, func() bool { // a session that was never registered
-				id := uint64(0xdead0000) + uint64(rapid.IntRange(0, 2).Draw(t, "unknownID"))
-				cmd := genCmd(t)
-				e := g.encode(cmd)
-				s := uint64(rapid.IntRange(1, 3).Draw(t, "unknownSeries"))
-				e.ClientID, e.SeriesID, e.RespondedTo = id, s, s-1
-				g.push(e, entMeta{Kind: ekUnknown, Client: id, Series: s, Responded: s - 1, Cmd: cmd, Tmpl: -1})
-				return true
-			}},
-		)
-	}
-	ops = append(ops,
-		op{g.o.wNoop, func() bool {
+				g.land(c.old[k], true)
+			})
+		}
+		if len(sessTmpls) > 0 {
+			add(g.o.wDupSess, func() { // retried register / unregister
+				g.land(sessTmpls[rapid.IntRange(0, len(sessTmpls)-1).Draw(t, "sessTmpl")], true)
+			})
+		}
+		add(g.o.wUnknown, func() { // a session that was never registered
+			id := uint64(0xdead0000) + uint64(rapid.IntRange(0, 2).Draw(t, "unknownID"))
 			cmd := genCmd(t)
 			e := g.encode(cmd)
-			e.ClientID = g.noopIDs[rapid.IntRange(0, len(g.noopIDs)-1).Draw(t, "noopID")]
-			e.SeriesID = client.NoOPSeriesID
-			g.push(e, entMeta{Kind: ekNoopSession, Client: e.ClientID, Cmd: cmd, Tmpl: -1})
-			return true
-		}},
-		op{g.o.wEmpty, func() bool {
-			if rapid.Bool().Draw(t, "newTerm") {
-				g.term += uint64(rapid.IntRange(1, 2).Draw(t, "termStep"))
-			}
-			g.push(pb.Entry{Type: pb.ApplicationEntry}, entMeta{Kind: ekEmpty})
-			return true
-		}},
-		op{g.o.ccW, func() bool {
-			cc := g.genCC(t)
-			g.push(pb.Entry{Type: pb.ConfigChangeEntry, Cmd: pb.MustMarshal(&cc)}, entMeta{Kind: ekCC, CC: cc})
-			g.lastCC = g.next() - 1
-			return true
-		}},
-	)
+			s := uint64(rapid.IntRange(1, 3).Draw(t, "unknownSeries"))
+			e.ClientID, e.SeriesID, e.RespondedTo = id, s, s-1
+			g.push(e, entMeta{Kind: ekUnknown, Client: id, Series: s, Responded: s - 1, Cmd: cmd, Tmpl: -1})
+		})
+	}
+	add(g.o.wNoop, func() {
+		cmd := genCmd(t)
+		e := g.encode(cmd)
+		e.ClientID = g.noopIDs[rapid.IntRange(0, len(g.noopIDs)-1).Draw(t, "noopID")]
+		e.SeriesID = client.NoOPSeriesID
+		g.push(e, entMeta{Kind: ekNoopSession, Client: e.ClientID, Cmd: cmd, Tmpl: -1})
+	})
+	add(g.o.ccW, func() {
+		cc := g.genCC(t)
+		g.push(pb.Entry{Type: pb.ConfigChangeEntry, Cmd: pb.MustMarshal(&cc)}, entMeta{Kind: ekCC, CC: cc})
+		g.lastCC = g.next() - 1
+	})
 	total := 0
 	for _, o := range ops {
 		total += o.w
 	}
-	for try := 0; try < 8; try++ {
-		x := rapid.IntRange(0, total-1).Draw(t, "op")
-		for _, o := range ops {
-			if x < o.w {
-				if o.f() {
-					return
-				}
-				break
-			}
-			x -= o.w
+	x := rapid.IntRange(0, total-1).Draw(t, "op")
+	for _, o := range ops {
+		if x < o.w {
+			o.f()
+			return
 		}
+		x -= o.w
 	}
-	// nothing applicable: an empty entry always is
-	g.push(pb.Entry{Type: pb.ApplicationEntry}, entMeta{Kind: ekEmpty})
 }
 
 // genCC draws a config change request the way node.requestConfigChange builds
